@@ -19,24 +19,37 @@ VARIABLES op, p, n, pc, q, r, ovf, branch
 
 vars == <<op, p, n, pc, q, r, ovf, branch>>
 
-RECURSIVE P2(_)
-P2(k) == IF k = 0 THEN 1 ELSE 2 * P2(k - 1)
+RECURSIVE P2r(_)
+P2r(k) == IF k = 0 THEN 1 ELSE 2 * P2r(k - 1)
 RECURSIVE Bits(_)
 Bits(x) == IF x = 0 THEN 0 ELSE 1 + Bits(x \div 2)
 IsPrime(x) == x >= 2 /\ \A d \in 2..(x - 1) : d * d > x \/ x % d # 0
 
-WW == P2(W)
-OddPrimes == {x \in 3..(P2(PB) - 1) : IsPrime(x)}
+\* tables (constant definitions are evaluated once by TLC)
+P2T == [k \in 0..(2 * W) |-> P2r(k)]
+P2(k) == P2T[k]
+WW == P2T[W]
+OddPrimes == {x \in 3..(P2r(PB) - 1) : IsPrime(x)}
 
 (* Dividers::new, p odd *)
-MBig(x) == P2(2 * W - 1) \div x                       \* 2^127 / p
-SZ(x)   == Bits(MBig(x))
-MW(x)   == (MBig(x) \div P2(SZ(x) - W)) + 1           \* m64
-SW(x)   == 2 * W - 1 - SZ(x)                          \* s64
-RW(x)   == ((WW - 1) % x) + 1                         \* r64 = 2^64 mod p
-MH(x)   == (MBig(x) \div P2(SZ(x) - (H + 1))) + 1     \* m16 (H+1 bits)
-SH(x)   == 2 * W - 1 + H + 1 - SZ(x)                  \* s16
-MQ(x)   == (MW(x) - 1) \div P2(SW(x))                 \* "(m64 - 1) >> s64" = 2^64 div p
+NewRec(x) ==
+  LET mbig == P2r(2 * W - 1) \div x                   \* 2^127 / p
+      sz   == Bits(mbig)
+      mw   == (mbig \div P2r(sz - W)) + 1             \* m64
+      sw   == 2 * W - 1 - sz                          \* s64
+  IN [sz |-> sz, mw |-> mw, sw |-> sw,
+      rw |-> ((P2r(W) - 1) % x) + 1,                  \* r64 = 2^64 mod p
+      mh |-> (mbig \div P2r(sz - (H + 1))) + 1,       \* m16 (H+1 bits)
+      sh |-> 2 * W - 1 + H + 1 - sz,                  \* s16
+      mq |-> (mw - 1) \div P2r(sw)]                   \* "(m64 - 1) >> s64" = 2^64 div p
+DT == [x \in OddPrimes |-> NewRec(x)]
+SZ(x) == DT[x].sz
+MW(x) == DT[x].mw
+SW(x) == DT[x].sw
+RW(x) == DT[x].rw
+MH(x) == DT[x].mh
+SH(x) == DT[x].sh
+MQ(x) == DT[x].mq
 
 \* the constructor's own sanity check ("incorrect divider" panic) and field widths
 NewOK(x) ==
